@@ -143,14 +143,17 @@ def r2_sinks(rep, ctx):
     rep.floor("C13.R2", "sinks on fresh objects", n_fresh, 26)
     # the copies the current code relies on (named instances: dropping one is what R2 exists to catch)
     ci = m.method("FixedArray", "ChangingIndex")
-    v = None
+    # (whatever the edited container is called: the local that receives the element store, judged by every value bound to it)
+    edited = {st.targets[0].value.id for st in own_statements(ci.node) if isinstance(st, ast.Assign) and len(st.targets) == 1 and isinstance(st.targets[0], ast.Subscript) and isinstance(st.targets[0].value, ast.Name)}
+    vs = []
     for st in own_statements(ci.node):
-        if isinstance(st, ast.Assign) and isinstance(st.targets[0], ast.Name) and st.targets[0].id == "values":
-            v = a.value(ci, st.value)
-    if v is None:
-        raise AnalysisError("FixedArray.ChangingIndex: the local `values` was not found")
-    rep.check(prov.is_fresh(set(v.lv[0])), "C13.R2", "ChangingIndex:values-is-a-copy", "ChangingIndex edits a fresh container (%s)" % prov.fmt_atoms(set(v.lv[0])),
-              "ChangingIndex edits %s in place" % prov.fmt_atoms(set(v.lv[0])), fn=ci)
+        if isinstance(st, ast.Assign) and len(st.targets) == 1 and isinstance(st.targets[0], ast.Name) and st.targets[0].id in edited:
+            vs.append(a.value(ci, st.value))
+    if not vs:
+        raise AnalysisError("FixedArray.ChangingIndex: the container whose element is replaced was not found (no `<local>[index] = ...` on a local bound in the method)")
+    atoms = set().union(*[set(v.lv[0]) for v in vs])
+    rep.check(prov.is_fresh(atoms), "C13.R2", "ChangingIndex:values-is-a-copy", "ChangingIndex edits a fresh container (%s)" % prov.fmt_atoms(atoms),
+              "ChangingIndex edits %s in place" % prov.fmt_atoms(atoms), fn=ci)
 
 
 def r3_copies(rep, ctx):
